@@ -63,6 +63,60 @@ func (p *verifCtxPool) Put(x any) {
 	p.real.Put(x)
 }
 
+// verifRWMutex is the route cache's lock in the verif build: a sync.RWMutex of
+// which every acquisition, at any call site, is a yield point. Under a
+// simulator only one request runs at a time, so a request that finds the lock
+// taken keeps yielding (site "lock.wait") instead of blocking its thread; the
+// real mutex is still locked and unlocked, so the race detector sees exactly the
+// synchronisation the normal build has. A lock that is never released shows up
+// as a request that never finishes, not as a hung process.
+type verifRWMutex struct {
+	mu      sync.RWMutex
+	writer  bool
+	readers int
+}
+
+//go:norace
+func (m *verifRWMutex) canLock() bool { return !m.writer && m.readers == 0 }
+
+//go:norace
+func (m *verifRWMutex) canRLock() bool { return !m.writer }
+
+//go:norace
+func (m *verifRWMutex) note(writer bool, readers int) { m.writer = writer; m.readers += readers }
+
+// Lock locks for writing.
+func (m *verifRWMutex) Lock() {
+	verifYield("lock")
+	for i := 0; !m.canLock() && i < 1<<20; i++ {
+		verifYield("lock.wait")
+	}
+	m.mu.Lock()
+	m.note(true, 0)
+}
+
+// Unlock unlocks for writing.
+func (m *verifRWMutex) Unlock() {
+	m.note(false, 0)
+	m.mu.Unlock()
+}
+
+// RLock locks for reading.
+func (m *verifRWMutex) RLock() {
+	verifYield("lock")
+	for i := 0; !m.canRLock() && i < 1<<20; i++ {
+		verifYield("lock.wait")
+	}
+	m.mu.RLock()
+	m.note(false, 1)
+}
+
+// RUnlock undoes a single RLock.
+func (m *verifRWMutex) RUnlock() {
+	m.note(false, -1)
+	m.mu.RUnlock()
+}
+
 func verifOrder(site string, items []string) []string {
 	if h := VerifHooks.Order; h != nil {
 		return h(site, items)
